@@ -272,6 +272,13 @@ func runC12(r *Run) {
 		}
 	}
 	pl.Done()
+
+	// ---- the message the handler sees is the decode of exactly the received datagram (shared with C08.reset)
+	if cl := p.buildClosures(); cl.DecodeM != nil && cl.Message != nil {
+		dc := r.Rule("C12.decode", "on every path of Decode (run by the reader on its reused Message) the attribute list is emptied before anything is appended and before every successful return: the event's message carries no attribute of an earlier datagram", 1)
+		checkDecodeReset(r, dc, cl.DecodeM, FieldVar(cl.Message, "Attributes"))
+		dc.Done()
+	}
 }
 
 // structArgKey: key of field `name` of a struct-typed call argument (a load of a local alloc, or a parameter/value struct).
